@@ -301,6 +301,9 @@ def _check_rows(run, env, plan, td, rows, t, phase, source, first=False):
     cc_all = [float(x) for x in td["cost_current"].flatten().tolist()]
     cb_all = [float(x) for x in td["cost_bsf"].flatten().tolist()]
     vt_all = td["visited_time"].tolist()
+    if not first and "reward" not in td.keys():
+        _viol(run, scope, "reward", "reward_missing", f"the state returned by move {t} ({source}) carries no reward "
+              f"(keys {sorted(td.keys())})", t=t, phase=phase)
     rew_all = None if first else [float(x) for x in td["reward"].flatten().tolist()]
     if len(cc_all) != B or len(cb_all) != B:
         _viol(run, scope, "shape", "cost_shape", f"cost tensors {tuple(td['cost_current'].shape)} / "
